@@ -166,6 +166,46 @@ CHECKS = {
             "Trusted: vf/cmdref.py and vf/model_cmds.py (transcribed from the Server Command "
             "Reference and class documentation), vf/osc.py.",
             "3/C17"),
+    'C01': ("translation validation by random ring evaluation: the decoded definition bytes "
+            "(vf/scgf.py) and the generator's shadow DAG are evaluated under the same random "
+            "interpretation (ring operators exact over rationals, every other unit an "
+            "uninterpreted keyed hash); multisets of effect-unit signatures, pure-unit inclusion, "
+            "opcodes (vf/opcodes.py) and rates compared",
+            "Runtime monitoring of seeded graph programs through the real SynthDef compiler "
+            "(constructor shortcuts, Sum3/Sum4/MulAdd/neg/sub rewrites, dead-code elimination); "
+            "every compilation validated independently. Held on the programs explored.",
+            "Trusted: vf/scgf.py, vf/opcodes.py (transcribed from the server's opcode enumeration), "
+            "the purity table of the generator's unit classes, three independent interpretations "
+            "per program (a wrong rewrite survives one with probability ~2^-60).",
+            "3/C01"),
+    'C02': ("independent strict SCgf-2 parser + structural predicates (strictly-earlier inputs, "
+            "width-first ordering from creation tags, counts/names/rates consistency) + the "
+            "library's own SynthDesc reader round trip against the generator's shadow model; "
+            "invalid graphs must raise",
+            "Runtime monitoring of seeded programs incl. multi-output units, nested multichannel "
+            "expansion, width-first units, hundreds of units/constants, names up to 255 chars, "
+            "variants and nine classes of invalid graphs.",
+            "Trusted: vf/scgf.py (written from the Synth Definition File Format), the generator's "
+            "shadow model of controls/gate/IO units.",
+            "3/C02"),
+    'C06': ("independent OSC 1.0 reader (vf/osc.py) + coercion model on every packet the "
+            "builders accept; refusal/alteration classification; size prediction vs real size; "
+            "clumped and synced sends captured at the interface with replies fed back; d_recv route",
+            "Runtime monitoring of seeded hostile argument lists, nested bundles with all latency "
+            "shapes and element lists straddling the clump and UDP limits.",
+            "Trusted: vf/osc.py, the documented coercions (None/False/[] -> 0, True -> 1, float32, "
+            "message/bundle-shaped lists -> blobs, bracket markers -> arrays).",
+            "3/C06"),
+    'C07': ("trace monitor with integer timetag equality: datagrams captured at the RT interface "
+            "are decoded by vf/osc.py and compared with the timetag recomputed from the sending "
+            "routine's logical time (call interval outside routines); NRT score order, tail marker "
+            "and raw == concatenation of length-prefixed encodings of list",
+            "Runtime monitoring of routines on all clock kinds sending messages, bundles and nested "
+            "bundles with latencies {None, <0, 0, tiny, 0.2, 3} under wake-up jitter (RT) and of "
+            "generated NRT scores; incoming bundle times through loop-back.",
+            "Trusted: vf/osc.py; the offset recomputed from main._init_time; host wall clock not "
+            "stepping.",
+            "3/C07"),
 }
 
 NOT_YET = "check not built yet in this session (work in progress); runtime monitoring is applicable"
